@@ -27,7 +27,7 @@ fn par_for(n: usize, threads: usize, f: impl Fn(usize) + Sync) {
 				if i >= n {
 					return;
 				}
-				f(i);
+				crate::item_guard("item", || f(i));
 			});
 		}
 	});
